@@ -28,9 +28,196 @@ class ZoneAnalysis:
         return self._creators.get(cpath)
 
     def zf(self, path):
+        # closures of a function that is being analysed for one instantiation of its const generics share that instantiation
+        ctx = getattr(self, '_cg_ctx', None)
+        if ctx and path.startswith(ctx[0] + '::{closure'):
+            return self.zf_spec(path, ctx[1])
         if path not in self._zf:
             self._zf[path] = ZoneFn(self, self.prog.bodies[path])
         return self._zf[path]
+
+    # ------------------------------------------------------------ const generics: one analysis per instantiation
+    def cg_names(self, path):
+        """names of the const generic parameters a body computes with (constant operands that are neither literals nor named constants)"""
+        if not hasattr(self, '_cgn'):
+            self._cgn = {}
+        if path not in self._cgn:
+            b = self.prog.bodies[path]
+            names = set()
+            def look(o):
+                if isinstance(o, dict) and o.get('k') == 'const' and o.get('ty') in ('usize', 'u64', 'u32') and 'int' not in o and 'uneval' not in o \
+                        and 'promoted' not in o and str(o.get('disp', '')).isidentifier():
+                    names.add(o['disp'])
+            for blk in b.blocks:
+                for st in blk['stmts']:
+                    if st['k'] == 'assign':
+                        rv = st['rv']
+                        for o in [rv.get('op'), rv.get('a'), rv.get('b')] + list(rv.get('ops') or []):
+                            look(o)
+                if blk['term']['k'] == 'call':
+                    for o in blk['term']['args']:
+                        look(o)
+            # a function that only hands its parameter on (`helper::<N>` calling `i2osp::<N>`) is generic in it too
+            for bi, t in b.calls():
+                for c in (t.get('cargs') or []):
+                    if str(c).isidentifier():
+                        names.add(c)
+            self._cgn[path] = names
+        return self._cgn[path]
+
+    def resolve_cargs(self, zf, t, tgt):
+        """{const generic name of the callee: value} for this call, when the callee has one const generic and the call instantiates it with a
+        literal (or with a const generic of the caller whose value is known in this analysis)"""
+        names = sorted(self.cg_names(tgt))
+        cargs = t.get('cargs') or []
+        if len(names) != 1 or len(cargs) != 1:
+            return None
+        c = str(cargs[0])
+        if c.isdigit():
+            return {names[0]: int(c)}
+        if c in zf.cg:
+            return {names[0]: zf.cg[c]}
+        return None
+
+    def zf_spec(self, path, cg):
+        key = (path, tuple(sorted(cg.items())))
+        if not hasattr(self, '_spec'):
+            self._spec = {}
+        if key not in self._spec:
+            self._spec[key] = ZoneFn(self, self.prog.bodies[path], cg=dict(cg))
+        return self._spec[key]
+
+    def instances(self, path, depth=0):
+        """every instantiation {name: value} of a const-generic local function that some call site of the crate makes; None if one cannot be
+        resolved to literals"""
+        names = sorted(self.cg_names(path))
+        if len(names) != 1 or depth > 3:
+            return None
+        out = []
+        found = False
+        for p, b in self.prog.bodies.items():
+            for bi, t in b.calls():
+                if local_target(self.eng, t) != path:
+                    continue
+                found = True
+                cargs = t.get('cargs') or []
+                if len(cargs) != 1:
+                    return None
+                c = str(cargs[0])
+                if c.isdigit():
+                    inst = {names[0]: int(c)}
+                    if inst not in out:
+                        out.append(inst)
+                else:
+                    owner = p if b.kind != 'Closure' else b.j.get('parent_fn', p)
+                    sub = self.instances(owner, depth + 1)
+                    if sub is None:
+                        return None
+                    for si in sub:
+                        if c in si:
+                            inst = {names[0]: si[c]}
+                            if inst not in out:
+                                out.append(inst)
+                        else:
+                            return None
+        return out if found else None
+
+    def summary_spec(self, path, cg):
+        key = (path, tuple(sorted(cg.items())))
+        if not hasattr(self, '_summ_spec'):
+            self._summ_spec = {}
+        if key in self._summ_spec:
+            return self._summ_spec[key]
+        if key in self._inprog:
+            return None
+        self._inprog.add(key)
+        prev = getattr(self, '_cg_ctx', None)
+        self._cg_ctx = (path, dict(cg))
+        try:
+            zf = self.zf_spec(path, cg)
+            self.analyse_sites(zf)
+            summ = {'retlen': self._retlen(zf), 'pre': [s for s in zf.sites if s.status == 'pre'], 'post': self._post_ok(zf), 'retlen_lb': self._retlen_lb(zf),
+                    'retelem': self._retelem(zf), 'post_true': self._post_true_params(zf), 'retval': self._retval(zf), 'post_none': self._post_none(zf),
+                    'unknown': [s for s in zf.sites if s.status == 'unknown']}
+        finally:
+            self._cg_ctx = prev
+            self._inprog.discard(key)
+        self._summ_spec[key] = summ
+        return summ
+
+    def _feasible_blocks(self, zf, reach):
+        """blocks reachable when branches on comparisons of two constants are taken the only way they can go (one instantiation of a generic
+        function, one call site of a closure: `if N >= 8 {..} else {..}` has one live arm)"""
+        body = zf.body
+        OPS = {'Eq': lambda a, b: a == b, 'Ne': lambda a, b: a != b, 'Lt': lambda a, b: a < b, 'Le': lambda a, b: a <= b,
+               'Gt': lambda a, b: a > b, 'Ge': lambda a, b: a >= b}
+
+        def const_bool(l, depth=0):
+            d = zf.single_def(l)
+            if not d or depth > 4 or d[0] != 'assign':
+                return None
+            rv = d[2]['rv']
+            if rv['k'] == 'binop' and rv['op'] in OPS:
+                a, b = zf.term_op(rv['a']), zf.term_op(rv['b'])
+                if a is not None and b is not None and a[0] is None and b[0] is None:
+                    return OPS[rv['op']](a[1], b[1])
+            if rv['k'] == 'unop' and rv['op'] == 'Not' and rv['a']['k'] in ('copy', 'move') and not rv['a']['pl'].get('p'):
+                v = const_bool(rv['a']['pl']['l'], depth + 1)
+                return None if v is None else (not v)
+            if rv['k'] == 'use' and rv['op']['k'] in ('copy', 'move') and not rv['op']['pl'].get('p'):
+                return const_bool(rv['op']['pl']['l'], depth + 1)
+            return None
+
+        seen, st = set(), [0]
+        while st:
+            b = st.pop()
+            if b in seen or b not in reach:
+                continue
+            seen.add(b)
+            t = body.blocks[b]['term']
+            succ = list(body.succ[b])
+            if t['k'] == 'switch' and t['discr']['k'] in ('copy', 'move') and not t['discr']['pl'].get('p'):
+                l = t['discr']['pl']['l']
+                v = const_bool(l) if body.local_ty(l) == 'bool' else None
+                if v is None and body.local_ty(l) in ('usize', 'u64', 'u32', 'u8', 'isize', 'i8', 'i32'):
+                    tt = zf.term_local(l)
+                    if tt is not None and tt[0] is None:
+                        v = tt[1]
+                if v is not None:
+                    val = str(int(v))
+                    hit = [x for vv, x in t['targets'] if vv == val]
+                    succ = hit if hit else ([t['otherwise']] if t.get('otherwise') is not None else succ)
+            st.extend(succ)
+        return seen
+
+    def _judge_generic_sites(self, zf):
+        """sites of a const-generic function that the generic analysis leaves open: decided per instantiation the crate makes (preconditions of
+        an instantiation are checked at the call sites that make it)"""
+        path = zf.body.path
+        if zf.cg or zf.body.kind == 'Closure' or not self.cg_names(path) or not any(s.status == 'unknown' for s in zf.sites):
+            return
+        insts = self.instances(path)
+        if not insts:
+            return
+        per = []
+        for cg in insts:
+            summ = self.summary_spec(path, cg)
+            if summ is None:
+                return
+            spec = self.zf_spec(path, cg)
+            m = {}
+            for x in spec.sites:
+                m.setdefault((x.kind, x.block), []).append(x.status)
+            per.append(m)
+        for s in zf.sites:
+            if s.status != 'unknown':
+                continue
+            # the sites of the same kind at the same program point in each instantiation (none left = proven or dead there)
+            sts = [m.get((s.kind, s.block), []) for m in per]
+            if all(all(st.startswith('safe') or st == 'pre' for st in lst) for lst in sts):
+                s.status = 'pre'
+                s.pre = []
+                s.per_instance = ['%s: %s' % (sorted(cg.items()), lst or 'no site') for cg, lst in zip(insts, sts)]
 
     # ------------------------------------------------------------ constants
     def named_const(self, op):
@@ -648,6 +835,8 @@ class ZoneAnalysis:
         reach = body.reachable()
         counter = {}
         zf.prime()
+        if zf.cg or zf.overrides:
+            reach = self._feasible_blocks(zf, reach)
 
         def add(site):
             k = (site.kind, site.desc)
@@ -789,9 +978,18 @@ class ZoneAnalysis:
                 else:
                     tgt = local_target(self.eng, t)
                     if tgt is not None and tgt != body.path:
-                        summ = self.summary(tgt)
+                        cgm = self.resolve_cargs(zf, t, tgt) if self.cg_names(tgt) else None
+                        summ = self.summary_spec(tgt, cgm) if cgm else self.summary(tgt)
                         if summ is None:
                             continue
+                        import audit as _audit
+                        for us in (summ.get('unknown') or []) if cgm else []:
+                            if (us.origin or us).key() in _audit.AUDIT:
+                                continue      # decided (or not) by the audited argument on the generic function
+                            # left open even for this instantiation: reported here, at the call that makes the instantiation
+                            s = Site(body.path, bi, 'callee', '%s<-%s' % (tgt.split('::')[-1], (us.origin or us).key()), None, t['line'], t.get('span'))
+                            s.origin = us.origin or us
+                            add(s)
                         for ps in summ['pre']:
                             need = []
                             ok_expr = True
@@ -809,6 +1007,7 @@ class ZoneAnalysis:
             self._discharge(zf, s)
         self._specialise_direct_calls(zf)
         self._lift_closure_sites(zf)
+        self._judge_generic_sites(zf)
 
     def _closure_term(self, zf, czf, caps, t, left):
         """a term of a closure body (element parameter, captures, captured containers) in the terms of the body that creates the closure"""
@@ -826,6 +1025,8 @@ class ZoneAnalysis:
         if m and int(m.group(1)) < len(caps) and caps[int(m.group(1))]['k'] in ('copy', 'move'):
             return tadd(zf.len_of_place(caps[int(m.group(1))]['pl']), c)
         if sy.startswith('N:'):
+            if sy[2:] in zf.cg:
+                return (None, zf.cg[sy[2:]] + c)
             return t
         return None
 
@@ -1098,6 +1299,16 @@ class ZoneAnalysis:
                 return
         if s.need is not None:
             extra = getattr(s, 'extra', ())
+            # a lower bound on a quotient x / c is a lower bound on x (k <= x / c  <=>  k * c <= x)
+            nn = []
+            for (t1, t2) in s.need:
+                if t1 is not None and t2 is not None and t1[0] is None and t2[0] is not None and t2[0] in zf.scaled and zf.scaled[t2[0]][0] == 'div':
+                    _, x, c, _w = zf.scaled[t2[0]]
+                    if x is not None and not zf.unstable(x):
+                        nn.append(((None, (t1[1] - t2[1]) * c), x))
+                        continue
+                nn.append((t1, t2))
+            s.need = nn
             if all(zf.prove_le(t1, t2, b, extra=extra) for (t1, t2) in s.need):
                 s.status = 'safe:dbm'
                 return
@@ -1273,7 +1484,7 @@ class ZoneAnalysis:
                     if m and oc['args'][0]['k'] in ('copy', 'move'):
                         n = m.group(1)
                         ln = zf.len_of_place(oc['args'][0]['pl'])
-                        want = (None, int(n)) if n.isdigit() else ('N:' + n, 0)
+                        want = (None, int(n)) if n.isdigit() else ((None, zf.cg[n]) if n in zf.cg else ('N:' + n, 0))
                         if ln is not None and zf.prove_le(ln, want, s.block) and zf.prove_le(want, ln, s.block):
                             return 'len==%s' % n
                     if 'Infallible' in ocf:
